@@ -22,6 +22,10 @@ const (
 )
 
 func VerifC08(nThin, withBackground, sendBuffer int) {
+	if withBackground == 2 {
+		verifC08Aftermath(nThin, sendBuffer)
+		return
+	}
 	peerKind := c08NotReading
 	if withBackground != 1 {
 		peerKind = vChoice("peer", c08NPeer)
@@ -74,6 +78,54 @@ func VerifC08(nThin, withBackground, sendBuffer int) {
 			vAssert(!bg.returned || bg.err != nil, "C05.background-call-got-foreign-reply")
 		}
 	}
+}
+
+// verifC08Aftermath (withBackground == 2): "whatever other calls are in flight" includes calls
+// that were given up earlier. A first call of symbolic type is cancelled at any point against a
+// peer that holds its answers back; then the peer answers everything it received (late
+// replies for a call that has already returned); then a second call is issued and cancelled
+// at any point: it must return as well.
+func verifC08Aftermath(nThin, sendBuffer int) {
+	var opts []ManagerOption
+	if sendBuffer > 0 {
+		opts = append(opts, WithSendBufferSize(uint(sendBuffer)))
+	}
+	w := vMixed(1, nThin, nil, opts...)
+	p := w.peers[0]
+	kindA := vChoice("calltype", ckN)
+	a := fsNewCall(kindA, 1, 0)
+	go a.run(w, w.cfg)
+	a.cancel()
+	vQuiescent()
+	vReach("calltype-" + ckNames[kindA])
+	if !a.issued {
+		vFail("C08.invocation-does-not-return-after-context-end")
+	}
+	if !a.returned {
+		vFail("C08.result-not-available-after-context-end")
+	}
+	// the late answers
+	for x := p.take(); x != nil; x = p.take() {
+		if !ckOneWay(kindA) {
+			p.reply(x, vStamp(p, x, 0), nil)
+			vReach("late-reply")
+		}
+	}
+	vQuiescent()
+	kindB := vChoice("second", 3)
+	kb := []int{ckRPC, ckQC, ckUnicast}[kindB]
+	b := fsNewCall(kb, 2, 0)
+	go b.run(w, w.cfg)
+	b.cancel()
+	vFreezeEnv()
+	vQuiescent()
+	if !b.issued {
+		vFail("C08.invocation-does-not-return-after-context-end")
+	}
+	if !b.returned {
+		vFail("C08.result-not-available-after-context-end")
+	}
+	vReach("second-call-returned")
 }
 
 func VerifC08Twin(nThin, withBackground, sendBuffer int) {
